@@ -3,16 +3,21 @@
 package c03
 
 import (
+	"bytes"
+	"crypto/sha256"
 	"fmt"
 	"math/big"
 	"strings"
 	"testing"
 
+	sdk "github.com/cosmos/cosmos-sdk/types"
+	banktypes "github.com/cosmos/cosmos-sdk/x/bank/types"
 	"github.com/ethereum/go-ethereum/common"
 
 	"github.com/teleport-network/teleport/syscontracts"
 	stakingcontract "github.com/teleport-network/teleport/syscontracts/staking"
 	agentcontract "github.com/teleport-network/teleport/syscontracts/xibc_agent"
+	packettypes "github.com/teleport-network/teleport/x/xibc/core/packet/types"
 
 	"verif/harness/core"
 	"verif/harness/pkt"
@@ -80,8 +85,10 @@ func runHistory(r *core.Run, cid string, L int) {
 			l.recv()
 		case x < 88:
 			l.ack()
-		case x < 93:
+		case x < 91:
 			l.duplicate()
+		case x < 93:
+			l.batch()
 		case x < 96:
 			a, b := s.RandNodePair()
 			_, _, _ = s.UpdateClient(a, b, s.RandRelayer(), 0)
@@ -319,6 +326,73 @@ func (l *ledger) ackPkt(p *pkt.Pkt) {
 		}
 	}
 	l.check("ack "+p.Key(), o)
+}
+
+// batch: one EVM transaction (a small router contract) makes two cross-chain transfers of the native coin to two different
+// destinations. Every PacketSent log of a successful transaction stands for escrowed value: it must be backed by a
+// stored commitment (only then is the value "in flight" and can be delivered or refunded).
+func (l *ledger) batch() {
+	s := l.s
+	nat := s.Tokens[len(s.Tokens)-1]
+	if nat.Addr != core.ZeroAddr {
+		return
+	}
+	src := nat.Origin
+	var dsts []*core.Node
+	for _, n := range s.W.Nodes {
+		if n != src {
+			dsts = append(dsts, n)
+		}
+	}
+	if len(dsts) < 2 {
+		return
+	}
+	amounts := []int64{int64(5 + s.Rng.Intn(40)), int64(5 + s.Rng.Intn(40))}
+	recv := []string{pkt.LowerHex(s.RandUser().Eth), pkt.LowerHex(s.RandUser().Eth)}
+	var steps []core.Step
+	for i := 0; i < 2; i++ {
+		d := packettypes.CrossChainData{DstChain: dsts[i].Name, TokenAddress: core.ZeroAddr, Receiver: recv[i], Amount: big.NewInt(amounts[i]), CallData: []byte{}}
+		data, err := core.EndpointABI.Pack("crossChainCall", d, packettypes.Fee{TokenAddress: core.ZeroAddr, Amount: big.NewInt(0)})
+		if err != nil {
+			return
+		}
+		steps = append(steps, core.Step{Kind: core.KindCall, Target: core.EndpointAddr, Data: data, Value: uint64(amounts[i]), MustOK: true})
+	}
+	addr, err := src.DeployRuntime(s.W.Admin.Eth, core.Multicall(steps))
+	if err != nil {
+		return
+	}
+	fund := banktypes.NewMsgSend(s.W.Admin.Acc, sdk.AccAddress(addr.Bytes()), sdk.NewCoins(sdk.NewInt64Coin(core.BondDenom, amounts[0]+amounts[1])))
+	if o := s.Deliver(src, s.W.Admin, "fund router", fund); !o.OK() {
+		return
+	}
+	tx, err := src.EthTx(s.RandUser(), &addr, nil, 5_000_000, []byte{})
+	if err != nil {
+		return
+	}
+	o := s.DeliverEth(src, "router: two transfers to two destinations in one transaction", tx)
+	l.r.Count(fmt.Sprintf("batch_sends/ok=%v", o.OK()), 1)
+	if o.OK() {
+		router := &core.Account{Name: "router", Acc: sdk.AccAddress(addr.Bytes()), Eth: addr}
+		sent := core.ParseSent(o.Eth)
+		if len(sent) != 2 {
+			l.r.Violation(l.cid, fmt.Sprintf("batch/successful-transaction-logged-%d-packets-for-2-transfers", len(sent)), map[string]interface{}{"log": s.Log})
+		}
+		for _, sp2 := range sent {
+			i := 0
+			if sp2.Dst == dsts[1].Name {
+				i = 1
+			}
+			p := s.Register(sp2, pkt.SendSpec{Src: src, Dst: dsts[i], User: router, Receiver: recv[i], Token: nat, Amount: big.NewInt(amounts[i])}, src)
+			stored := src.App.XIBCKeeper.PacketKeeper.GetPacketCommitment(src.Ctx(), p.Src, p.Dst, p.Packet.Sequence)
+			if h := sha256.Sum256(p.Bytes); !bytes.Equal(stored, h[:]) {
+				l.r.Violation(l.cid, "batch/escrowed-value-without-a-commitment-is-not-in-flight", map[string]interface{}{"packet": p.Key(), "amount": amounts[i], "stored_commitment": core.Hex(stored), "log": s.Log})
+			}
+		}
+	} else if len(o.Diff) != 0 {
+		l.r.Violation(l.cid, "send/failed-send-changed-state", map[string]interface{}{"spec": "router batch", "diff": core.TrimDiff(o.Diff, 8)})
+	}
+	l.check("batch", o)
 }
 
 // duplicate re-delivers a message that was already accepted - the genuine acknowledgement of an acknowledged packet
